@@ -132,6 +132,7 @@ def build(S, tier):
     # ------------------------------------------------------------------ B. the function contracts the lemmas are stated over
     from contracts import C02, C03, C10, C11, C14
     subs = {}
+    u0 = len(S.unsupported)
     for name, mod, kw in (("C02", C02, {}), ("C10", C10, {}), ("C14", C14, {}), ("C11", C11, {}),
                           ("C03", C03, {"cases": ("Canonical+DisplacementMove", "Isobaric+CellMove", "GrandCanonical+ExchangeMove", "HamiltonianCanonical+HamiltonianDisplacementMove")})):
         n0 = len(S.obligations)
@@ -140,7 +141,8 @@ def build(S, tier):
         for a in m.get("assumptions", []):
             if a not in meta["assumptions"]:
                 meta["assumptions"].append(f"[{name}] {a}")
-    S.prove("components#cover.contracts_of_every_kernel_part_rechecked", all(v > 20 for v in subs.values()), kind="cover", why=str(subs))
+    if len(S.unsupported) == u0:          # a re-discharged contract that went (partly) out of reach is reported as such, not as a missing cover
+        S.prove("components#cover.contracts_of_every_kernel_part_rechecked", all(v > 20 for v in subs.values()), kind="cover", why=str(subs))
     # unweighted deletion target: every particle choice recorded by the exchange trials is a uniform one
     meta["component_obligations"] = subs
     return meta
